@@ -148,7 +148,12 @@ func prop(c Case) error {
 		}
 	}
 	// what Unmarshal returned is the caller's: another text parsed afterwards changes nothing in it
-	for _, o := range []string{"LINESTRING Z (1 2 3, 4 5 6, 7 8 9)", "MULTIPOLYGON (((0 0, 9 0, 9 9, 0 0)), EMPTY)", "POINT (7 7)"} {
+	// (among them EMPTY geometries of every layout: values without coordinates are the
+	// ones an implementation is tempted to share between results)
+	for _, o := range []string{"LINESTRING Z (1 2 3, 4 5 6, 7 8 9)", "MULTIPOLYGON (((0 0, 9 0, 9 9, 0 0)), EMPTY)", "POINT (7 7)",
+		"GEOMETRYCOLLECTION M EMPTY", "GEOMETRYCOLLECTION Z EMPTY", "GEOMETRYCOLLECTION ZM EMPTY", "GEOMETRYCOLLECTION EMPTY",
+		"POINT M EMPTY", "POINT Z EMPTY", "POINT ZM EMPTY", "POINT EMPTY", "LINESTRING M EMPTY", "POLYGON ZM EMPTY", "MULTIPOINT Z (EMPTY)", "MULTIPOLYGON M EMPTY",
+		"GEOMETRYCOLLECTION M (GEOMETRYCOLLECTION M EMPTY, POINT M EMPTY)"} {
 		if _, err := wkt.Unmarshal(o); err != nil {
 			return fmt.Errorf("wkt.Unmarshal(%q): %v", o, err)
 		}
